@@ -78,10 +78,12 @@ Restored(m, after) ==
   /\ (~g.tampered => Take(after, Len(pre)) = pre)
 
 \* where the RFC leaves two answers (DESIGN 7): a MAC below the RFC minimum is
-\* BADTRUNC or FORMERR
+\* BADTRUNC or FORMERR; a MAC longer than the algorithm's output is FORMERR or BADSIG
+LongMac(m, alg) == FromMessage(m) = "Found" /\ Len(LastRec(m).mac) > Native(alg)
 ShortMac(m, alg) == FromMessage(m) = "Found" /\ Len(LastRec(m).mac) < RfcMinLen(alg)
 ResOk(spec, obs, m, alg) ==
   \/ obs = spec
+  \/ spec \in {"BADSIG", "BadSig"} /\ LongMac(m, alg) /\ obs = (IF spec = "BADSIG" THEN "FORMERR" ELSE "FormErr")
   \/ spec \in {"BADTRUNC", "BadTrunc"} /\ ShortMac(m, alg) /\ obs = (IF spec = "BADTRUNC" THEN "FORMERR" ELSE "FormErr")
 
 T_SRequest ==
